@@ -11,5 +11,8 @@ CONSTANTS
   MainSigs = {"none", "unit", "param", "ret"}
   RunNames = {"a"}
   SubMain = {FALSE, TRUE}
+  BodyForms = {"plain"}
+  FnPositions = {"mixed"}
+  NoDups = FALSE
 INVARIANTS MCInv Emit
 CHECK_DEADLOCK FALSE
